@@ -623,21 +623,32 @@ func (p *pkgFiles) copyFacts(o *out, recv string) {
 		}
 		return false
 	}
-	ast.Inspect(fd.Body, func(n ast.Node) bool {
-		switch v := n.(type) {
-		case *ast.AssignStmt:
-			for i, l := range v.Lhs {
-				if se, ok := l.(*ast.SelectorExpr); ok && i < len(v.Rhs) && isFresh(v.Rhs[i]) {
-					fresh[se.Sel.Name] = true
-				}
-			}
-		case *ast.KeyValueExpr:
-			if k, ok := v.Key.(*ast.Ident); ok && isFresh(v.Value) {
-				fresh[k.Name] = true
+	// only UNCONDITIONAL statements of the body count (a fresh allocation under an `if`, in a loop or behind an early return
+	// of a branch is not taken on every path): the direct statements of the function body, and composite literals in them
+	for _, st := range fd.Body.List {
+		as, ok := st.(*ast.AssignStmt)
+		if !ok {
+			continue
+		}
+		for i, l := range as.Lhs {
+			if se, ok := l.(*ast.SelectorExpr); ok && i < len(as.Rhs) && isFresh(as.Rhs[i]) {
+				fresh[se.Sel.Name] = true
 			}
 		}
-		return true
-	})
+		for _, r := range as.Rhs {
+			ast.Inspect(r, func(n ast.Node) bool {
+				if _, isFn := n.(*ast.FuncLit); isFn {
+					return false
+				}
+				if kv, ok := n.(*ast.KeyValueExpr); ok {
+					if k, ok := kv.Key.(*ast.Ident); ok && isFresh(kv.Value) {
+						fresh[k.Name] = true
+					}
+				}
+				return true
+			})
+		}
+	}
 	var names []string
 	for k := range fresh {
 		names = append(names, k)
